@@ -72,8 +72,8 @@ static void h_excl(int argc, char **argv)
 static int acquiring;            /* threads between the start of an acquire and their unlock (for the "free, uncontended" clause) */
 static long acq_started;         /* number of acquires ever started */
 static int b_result = -1;
-MC_NOINSTR static void acq_begin(void) { acquiring++; acq_started++; }
-MC_NOINSTR static void acq_end(void) { acquiring--; }
+MC_NOINSTR static void acq_begin(void) { __atomic_add_fetch(&acquiring, 1, __ATOMIC_SEQ_CST); __atomic_add_fetch(&acq_started, 1, __ATOMIC_SEQ_CST); }
+MC_NOINSTR static void acq_end(void) { __atomic_sub_fetch(&acquiring, 1, __ATOMIC_SEQ_CST); }
 MC_NOINSTR static int acq_now(long *started) { *started = acq_started; return acquiring; }
 static void *mix_locker(void *arg)
 {
